@@ -78,7 +78,7 @@ PROPS["C03"] = {
                   "to the Go code only by the sampled runs below; MiniRedis as a description of a real server; Go channel FIFO and ticker delivery.",
     "rule": "parse: random mostly-valid streams (0..60 commands: select incl. filtered/target dbs and odd spellings, single/multi-key writes, ping, "
             "MULTI/EXEC blocks, sentinel hello, lua, opinfo, keep-alive newlines, mixed case) x db/key/lua filters x target.db x start db, 1 in 7 with "
-            "aborting commands; compared exactly + routing oracle. long pipe cases (3300-3800 commands, metric on, 2-slot delay channel); pipe cases with one command argument of 64 KiB / 1 MiB (thorough up to 3 MB). send/pipe: real sender (and parser) with the real ticker, delays {0,50,700 ms}, three "
+            "aborting commands; compared exactly + routing oracle. long pipe cases (3300-3800 commands, metric on, 2-slot delay channel); pipe cases with one command argument of 64 KiB / 1 MiB (thorough up to 3 MB); a quarter of the send/pipe streams end, after a long pause, in argument-less commands only. send/pipe: real sender (and parser) with the real ticker, delays {0,50,700 ms}, three "
             "threshold settings, resume on/off; verdict = acceptance of the recorded trace by the automaton + exactly-once/routing oracle on MiniRedis. "
             "non-trivial = parse cases with >= 3 commands and a non-empty result, every trace; distinct by case text",
     "nontrivial": _nontrivial,
